@@ -343,7 +343,7 @@ class Dipole(Wire):
                 self._coordinates = coordinates
 
             # Ensure the two poles are distinct.
-            if np.allclose(points[0, :], points[1, :]):
+            if np.allclose(points[0, :], points[1, :], rtol=0, atol=1e-15):
                 raise ValueError(
                     "The two electrodes are identical, use the format "
                     "(x, y, z, azimuth, elevation) instead. "
